@@ -335,15 +335,10 @@ def run_conversions(rep, tier, hs=None):
                 why = "expected exactly one buffer allocation, found %d" % len(news)
             else:
                 a = news[0].args[0]
-                # strip the overflow guard: select(ovf, -1, mul) / umul.with.overflow
-                cnt = None
-                for x in subterms(a):
-                    if x[0] in ('call', 'fn') and x[1] and x[1].startswith("llvm.umul.with.overflow"):
-                        cnt = x[3]
-                        stride = x[4]
-                    elif x[0] == 'op' and x[1] == 'mul' and cnt is None and x[4][0] == 'ci':
-                        cnt, stride = x[3], x[4]
                 vs = m["M"] * (4 if m["T"] == "float" else 8)
+                from .c12 import count_of
+                cnt = count_of(a, vs)          # the whole byte count must be (element count) * sizeof(vector)
+                stride = ('ci', vs, 64)
                 if cnt is None or stride != ('ci', vs, 64):
                     why = "buffer size %s is not (element count) x sizeof(vector)=%d" % (ir.show(a)[:100], vs)
                 else:
